@@ -61,8 +61,23 @@ def cases(tier):
             cs[-1]["fields"] = [f for f in cs[-1]["fields"] if f[0] not in inherited] or \
                 [["zz", {"k": "prim", "t": "Integer", "f": {}, "occ": {"min": 0, "max": 1, "nillable": True}}]]
             # members of the re-parented class must not refer to itself
+        late = draw(st.integers(0, 2)) == 0
+        if late and len(cs) >= 3:
+            # a chain C0 <- C1 <- C2 (fresh member names, plain members: customizing any type
+            # while the late class is declared would reset the very caches whose staleness this
+            # history is about); the deepest class is the one declared late (_late_history)
+            zz = {"k": "prim", "t": "Integer", "f": {}, "occ": {"min": 0, "max": 1, "nillable": True}}
+            uu = {"k": "prim", "t": "Unicode", "f": {}, "occ": {"min": 0, "max": 1, "nillable": True}}
+            cs[0]["extends"] = None
+            cs[0].pop("type_name", None)
+            own = set(f[0] for f in cs[0]["fields"])
+            c1 = {"name": cs[1]["name"], "ns": cs[0]["ns"], "extends": cs[0]["name"],
+                  "fields": [[n, dict(t)] for n, t in (("mid_i", zz), ("mid_s", uu)) if n not in own]}
+            c2 = {"name": cs[2]["name"], "ns": cs[0]["ns"], "extends": cs[1]["name"],
+                  "fields": [[n, dict(t)] for n, t in (("late_i", zz), ("late_s", uu)) if n not in own]}
+            U["classes"] = cs = [cs[0], c1, c2]
         bases = sorted(set(c["extends"] for c in cs if c["extends"]))
-        base = draw(st.sampled_from(bases))
+        base = cs[0]["name"] if (late and len(cs) >= 3) else draw(st.sampled_from(bases))
         shape = draw(st.sampled_from(["one", "one", "array", "multi"]))
         # the declared type is the class itself or a customized variant of it (possibly
         # customized again by Array): substitution must work for all of them
@@ -84,8 +99,47 @@ def cases(tier):
         arg = draw(vg.value(t).filter(lambda v: v is not None))
         ret = draw(vg.value(t).filter(lambda v: v is not None))
         return {"U": U, "m": m, "args": [arg], "rets": [ret], "prot": prot, "poly": poly,
+                "late": late,
                 "validator": None, "variant": 0}
     return one()
+
+
+def _late_history(case):
+    """A class of the tree that derives from a SUBCLASS of the declared base is declared only
+    after an application over the rest of the tree has been built and has served a request
+    (incrementally grown class trees): the application under test, built afterwards, must know
+    it like any other.  -> build.Built shared by both applications, or None"""
+    U, m = case["U"], case["m"]
+    if not case.get("late"):
+        return None
+    cs = {c["name"]: c for c in U["classes"]}
+    t = m["args"][0][1]
+    base = (t["of"] if t["k"] == "array" else t)["n"]
+    referenced = set()
+    for c in U["classes"]:
+        for _, ft in c["fields"]:
+            x = ft
+            while isinstance(x, dict):
+                if x.get("k") == "ref":
+                    referenced.add(x["n"])
+                x = x.get("of")
+    late = [c["name"] for c in U["classes"]
+            if c["extends"] and cs[c["extends"]]["extends"] is not None and c["name"] != base
+            and c["name"] not in referenced and not any(d["extends"] == c["name"] for d in U["classes"])]
+    if not late:
+        return None
+    B = build.Built(U, hold=[late[-1]])
+    try:
+        v0 = {"$obj": base, "f": {}}
+        occ = t.get("occ") or {}
+        first = dict(case, args=[[v0] if (t["k"] == "array" or occ.get("max", 1) != 1) else v0],
+                     rets=[[v0] if (t["k"] == "array" or occ.get("max", 1) != 1) else v0])
+        E0 = c01.Env(first, protocols=_protocols, B=B)
+        drive.loopback_call(E0.app, "m0", [B.to_native(t, first["args"][0])])
+    except Exception:
+        pass
+    B.declare(late[-1])
+    return B
 
 
 def _protocols(case):
@@ -183,7 +237,7 @@ def run_case(case, rec):
     sites_arg = subclass_sites(U, t, case["args"][0])
     sites_ret = subclass_sites(U, t, case["rets"][0])
     try:
-        E = c01.Env(case, protocols=_protocols)
+        E = c01.Env(case, protocols=_protocols, B=_late_history(case))
     except Exception as e:
         et, where = F.exc_origin(e)
         fails.append(("C16|build-raises|%s|%s" % (et, where), "building raised %r" % (e,)))
@@ -201,7 +255,10 @@ def run_case(case, rec):
         # MessagePackDocument writes text leaves as msgpack bin and cannot read them back
         # (a self-interop defect outside this property, see DESIGN): the request is built by
         # the reference codec with the documented conventions instead of the spyne client
-        codec0 = ref_dict.Codec(U, ref_dict.Cfg("msgpack", wrappers=True))
+        # map keys as msgpack str or bin (both are conventions the protocol reads), chosen by
+        # a function of the value so that the case stays plain data
+        codec0 = ref_dict.Codec(U, ref_dict.Cfg("msgpack", wrappers=True,
+                                                str_keys=len(json.dumps(exp_arg, default=str)) % 2 == 0))
         req = msgpack.packb(codec0.request(m, [exp_arg]), use_bin_type=True)
         out = drive.server_call(E.app, req)
         res, err = None, None
